@@ -70,11 +70,11 @@ prop('C09', prefix=['c09'],
             'binary operator, unary minus / percent on an operand; leaves: a relative reference and the number 2; (b) formulas assembled as text and parsed first: '
             '<leaf><op><leaf>, -<leaf>, <leaf>% with leaves A1 / $B$2 / Sheet1!C$3 / Ghost!A1 / A1:B2 / $A:$B / 2:3 / 1.5 / "a""b" / TRUE / #N/A / {1,2;3,4} and the 13 '
             'binary operators incl. the range operator; (c) function calls (real English function table): SUM(a,b), IF(a op b,a,b), SUM(a) op b, a op MAX(b,2), '
-            '-SUM(a op b), IF(AND(a,PI()>3),b%,NOT(a)) with 6 argument texts and 6 operators.  All printed by to_rc_format (stored form) and to_localized_string '
+            '-SUM(a op b), IF(AND(a,PI()>3),b%,NOT(a)) with 6 argument texts and 6 operators; (d) the texts of (c) shown in de / es / fr / it (real tables) with the en or the hand-built de locale and read back there.  (a)-(c) printed by to_rc_format (stored form) and to_localized_string '
             '(display form, en) and parsed back by the real lexer + parser; value-preserving re-associations (a+(b+c), a+(b-c), a&(b&c), -(a*b), -(a/b), a:(b:c)) '
             'are not demanded; texts the parser rejects are skipped',
      outside='deeper trees, other functions, LAMBDA/LET, implicit intersection and spill operators, numbers that print in scientific notation, the xlsx export form, '
-             'other languages/locales')
+             'other locales, the operator trees and leaf menus of (a)/(b) in other languages')
 prop('C10', prefix=['c10'],
      bounds='one sheet with A1 = 1.5 and four formulas typed in English (SUM/IF with a decimal literal, AND/TRUE with a comparison, * and & with a string, '
             'IFERROR/MAX over a division by zero); the display language switched to de / es / fr / it (solver chooses) and/or the locale to de (hand-built), '
